@@ -221,7 +221,7 @@ func init() {
 	}
 	register(&Prop{
 		ID: "C04sem",
-		Rule: "validation of the trusted JavaScript semantics: generated files ({msg} without a bundle — text, HTML tags, print and call placeholders, {plural} —, {css}, {debugger} among the commands) — an entry template and, in half of them, one or two templates it calls ({call} with value and content params, no data / data=\"all\" / data=\"$m\", callees calling callees, calls inside loops and content blocks; the semantics runs the callee's translated body as the callee oracle) — of the command fragment of Props/C04d (raw text with quotes, backslashes and HTML-special bytes; prints of int / string / bool expressions with no directive, |id, |noAutoescape, |escapeHtml under the three autoescape settings; let (value and content blocks) with fresh and SHADOWING names; if/elseif/else; foreach with and without ifempty over list parameters and map fields, for over range(…) with one to three arguments (positive literal step), switch on ints / strings with labels of both types, loop variables shadowing parameters, index / isFirst / isLast of the enclosing loops' variables; " +
+		Rule: "validation of the trusted JavaScript semantics: generated files ({msg} without a bundle — text, HTML tags, print and call placeholders, {plural} —, {css}, {debugger} among the commands) — an entry template and, in half of them, one or two templates it calls ({call} with value and content params, no data / data=\"all\" / data=\"$m\", callees calling callees, calls inside loops and content blocks; the semantics runs the callee's translated body as the callee oracle) — of the command fragment of Props/C04d (raw text with quotes, backslashes and HTML-special bytes; prints of int / string / bool expressions with no directive, |id, |noAutoescape, |escapeHtml under the three autoescape settings; let (value and content blocks) with fresh and SHADOWING names; if/elseif/else; foreach with and without ifempty over list parameters and map fields, for / foreach over range(…) with one to three arguments (positive literal step) with and without ifempty, switch on ints / strings with labels of both types, loop variables shadowing parameters, index / isFirst / isLast of the enclosing loops' variables; " +
 			"expressions: $ij references (the injected data, also inside callees) and scalar compile-time globals, + - * % on small ints, string concatenation, comparisons, same-type equality, and/or/not, ?:, elvis on a nullable, .k / ?.k / [i] accesses, length, isNonnull, floor/ceiling/round/min/max) x 3 data sets (one of them with missing map fields, null and undefined values, empty lists: TypeErrors and ifempty branches); " +
 			"soyjs.Write's statement text and its run in otto versus renderStmts(toCmds) and its run under Spec/JsStmt.execStmts in the driver, from the same data: text byte for byte, and the completion (output string / TypeError) wherever the semantics is not `unspec`; plus hand-written cases; non-trivial = the engine returns a non-empty string or throws",
 		Gen:         genC04sem,
@@ -776,7 +776,12 @@ func (g *semGen) cmd(d int) string {
 		g.loopVars = g.loopVars[:len(g.loopVars)-1]
 		g.loops--
 		g.vars = g.vars[:mark]
-		return "{for $" + name + " in range(" + args + ")}" + body + "{/for}"
+		kw := g.r.Pick([]string{"for", "for", "foreach"})
+		s := "{" + kw + " $" + name + " in range(" + args + ")}" + body
+		if g.r.Intn(3) == 0 {
+			s += "{ifempty}" + g.block(d-1) // 2e1528d: after the loop, `if (index == 0) {…}`
+		}
+		return s + "{/" + kw + "}"
 	default:
 		var list string
 		var et semTy
@@ -936,6 +941,9 @@ var semHands = []struct{ src, data string }{
 	// range loops: empty, one argument, a step that overshoots, a loop variable shadowing the limit
 	{"{namespace sem}\n/** @param n */\n{template .t}\n{for $i in range($n)}{$i}{/for}|{for $i in range(2, $n)}{$i}{/for}|{for $n in range(1, $n, 3)}{$n},{/for}{$n}\n{/template}\n", "(m (6e (i 8)))"},
 	{"{namespace sem}\n/** @param n */\n{template .t}\n{for $i in range($n)}{$i}{/for}|{for $i in range(2, $n)}{$i}{/for}|{for $n in range(1, $n, 3)}{$n},{/for}{$n}\n{/template}\n", "(m (6e (i 0)))"},
+	// the {ifempty} of a range loop: rendered when no iteration happened; the loop variable is out of scope in it
+	{"{namespace sem}\n/** @param n */\n{template .t}\n{foreach $i in range($n)}[{$i}]{ifempty}nothing{/foreach}|{for $i in range(2, $n)}{$i}{ifempty}E{let $i: 'x' /}{$i}{/for}|{foreach $i in range(0, 3, 2)}{$i}{ifempty}no{/foreach}\n{/template}\n", "(m (6e (i 0)))"},
+	{"{namespace sem}\n/** @param n */\n{template .t}\n{foreach $i in range($n)}[{$i}]{ifempty}nothing{/foreach}|{for $i in range(2, $n)}{$i}{ifempty}E{let $i: 'x' /}{$i}{/for}|{foreach $i in range(0, 3, 2)}{$i}{ifempty}no{/foreach}\n{/template}\n", "(m (6e (i 4)))"},
 	// switch: === never coerces; null label; several labels; no default
 	{"{namespace sem}\n/** @param n\n @param s */\n{template .t}\n{switch $n}{case '7'}str{case 7, 8}int{default}d{/switch}{switch $s}{case 7}int{case null}null{case 'a', '7'}s{/switch}|\n{/template}\n", "(m (6e (i 7)) (73 (s 37)))"},
 	{"{namespace sem}\n/** @param n\n @param s */\n{template .t}\n{switch $n}{case '7'}str{case 7, 8}int{default}d{/switch}{switch $s}{case 7}int{case null}null{case 'a', '7'}s{/switch}|\n{/template}\n", "(m (6e (s 37)) (73 (n)))"},
